@@ -170,6 +170,45 @@ func skolemize(g *Term, extra *[]Val) *Term {
 	return g
 }
 
+// peelGoal skolemizes the outer universal quantifiers of a goal and moves the antecedents of its outer implications
+// to the hypotheses (where quantified ones are instantiated like any other assumption): proving H ==> G is proving G
+// under H.
+func peelGoal(g *Term, extra *[]Val, hyps *[]*Term) *Term {
+	switch g.Op {
+	case OForall:
+		qi := quantInfo[g]
+		if qi == nil {
+			return g
+		}
+		m := map[*Term]*Term{}
+		for _, v := range qi.Vars {
+			L := make([]*Term, len(v.L))
+			for i, b := range v.L {
+				L[i] = FreshVar("sk_"+v.Name, b.S)
+				m[b] = L[i]
+			}
+			*extra = append(*extra, Val{v.T, L})
+		}
+		return peelGoal(Subst(qi.Body, m), extra, hyps)
+	case OImp:
+		var flat func(t *Term)
+		flat = func(t *Term) {
+			if t.Op == OAnd {
+				for _, a := range t.Args {
+					flat(a)
+				}
+				return
+			}
+			*hyps = append(*hyps, t)
+		}
+		flat(g.Args[0])
+		return peelGoal(g.Args[1], extra, hyps)
+	case OAnd:
+		return skolemize(g, extra)
+	}
+	return g
+}
+
 // instantiate returns ground consequences of an assumption p (positive universal quantifiers instantiated at candidates);
 // quantifier-free assumptions are returned as they are; other quantified material is dropped.
 func instantiate(p *Term, cs *candSet, extra []Val, budget *int) []*Term {
@@ -257,12 +296,17 @@ func groundQuery(o *Obligation) ([]*Term, *Term, bool) {
 		return nil, nil, false
 	}
 	var extra []Val
-	goal := skolemize(o.Goal, &extra)
+	var hyps []*Term
+	goal := peelGoal(o.Goal, &extra, &hyps)
+	extra = append(extra, termCands(append(append([]*Term{}, o.PC...), o.Goal), 40)...)
 	budget := 1500
 	var as []*Term
-	any := false
-	for _, p := range o.PC {
+	any := len(hyps) > 0
+	all := append(append([]*Term{}, o.PC...), hyps...)
+	var quantified []*Term
+	for _, p := range all {
 		if hasQuant(p) {
+			quantified = append(quantified, p)
 			ins := instantiate(p, o.cands, extra, &budget)
 			if len(ins) > 0 {
 				any = true
@@ -272,8 +316,71 @@ func groundQuery(o *Obligation) ([]*Term, *Term, bool) {
 			as = append(as, p)
 		}
 	}
+	// second round: values that only appeared through the first round of instances (e.g. results of uninterpreted
+	// contract functions applied to a skolem constant)
+	if budget > 200 && len(quantified) > 0 {
+		have := map[*Term]bool{}
+		for _, v := range extra {
+			have[v.L[0]] = true
+		}
+		var more []Val
+		for _, v := range termCands(as, 80) {
+			if !have[v.L[0]] && v.L[0].Op == OApp {
+				more = append(more, v)
+			}
+		}
+		if len(more) > 0 && len(more) <= 12 {
+			b2 := budget
+			if b2 > 600 {
+				b2 = 600
+			}
+			empty := &candSet{}
+			for _, p := range quantified {
+				as = append(as, instantiate(p, empty, more, &b2)...)
+			}
+		}
+	}
 	if !any && goal == o.Goal {
 		return nil, nil, false
 	}
 	return as, goal, true
+}
+
+// termCands: integer-sorted program values occurring in the formulas themselves (loop counters and other havoc'd
+// 64-bit values that are no longer in any live frame, results of uninterpreted contract functions): a cheap
+// substitute for E-matching.
+func termCands(ts []*Term, max int) []Val {
+	var out []Val
+	seen := map[*Term]bool{}
+	var walk func(t *Term)
+	walk = func(t *Term) {
+		if t == nil || seen[t] || len(out) >= max {
+			return
+		}
+		seen[t] = true
+		if t.S != nil && t.S.Kind == SBV && t.S.W == 64 && !t.hasBound {
+			switch t.Op {
+			case OVar:
+				if len(t.Args) == 0 && !isFreshRef(t) {
+					out = append(out, Val{types.Typ[types.Int], []*Term{t}})
+				}
+			case OApp:
+				if len(t.Name) > 3 && t.Name[:3] == "uf!" {
+					out = append(out, Val{types.Typ[types.Int], []*Term{t}})
+				}
+			}
+		}
+		for _, a := range t.Args {
+			walk(a)
+		}
+		if t.Op == OForall || t.Op == OExists {
+			if qi := quantInfo[t]; qi != nil {
+				walk(qi.Body)
+			}
+		}
+	}
+	for _, t := range ts {
+		walk(t)
+	}
+	return out
 }
